@@ -175,13 +175,23 @@ def harness_bin(profile):
 # 3. correspondence
 # ----------------------------------------------------------------------------------------------
 
+ISOLATED = set()   # families whose cases run in child processes (`run-isolated`), from the property config
+
+
+def note_isolated(cfg):
+    for f in cfg.get("families", []):
+        if f.get("isolated"):
+            ISOLATED.add(f["name"])
+
+
 def run_pipeline(family, profile, cases_path, prefix):
     """Runs impl + model + oracle on a cases file. Returns (impl_lines, model_lines, oracle_lines, err)."""
     impl, model, oracle = prefix + ".impl.out", prefix + ".model.out", prefix + ".oracle.out"
     for p in (impl, model, oracle):
         if os.path.exists(p):
             os.remove(p)
-    rc, out = sh([harness_bin(profile), "run", family, cases_path, impl], timeout=7200)
+    mode = "run-isolated" if family in ISOLATED else "run"
+    rc, out = sh([harness_bin(profile), mode, family, cases_path, impl], timeout=7200)
     if rc != 0 or not os.path.exists(impl):
         return None, None, None, "harness run %s/%s crashed (rc=%s): %s" % (family, profile, rc, out[-400:])
     rc, out = sh([DRIVER, family, cases_path, impl, model, oracle], timeout=7200)
@@ -326,6 +336,7 @@ def check(pid, tier):
     t0 = time.time()
     seed = int(os.environ.get("VERIF_SEED", "1"))
     cfg = load_cfg(pid)
+    note_isolated(cfg)
     ENV["VERIF_PROP"] = pid          # families that serve several properties select their sub-stream by it
     ENV["VERIF_TIER"] = tier
     wdir = os.path.join(WORK, pid)
@@ -535,6 +546,11 @@ def replay(path):
         print("not a replay file")
         return 2
     pid, family, profile, kind = m.groups()
+    try:
+        note_isolated(load_cfg(pid))
+    except Exception:
+        pass
+    ENV["VERIF_PROP"] = pid
     wdir = os.path.join(WORK, pid)
     os.makedirs(wdir, exist_ok=True)
     print(open(path).read())
